@@ -286,12 +286,16 @@ func (c *client) SendBatch(ctx context.Context, batch []hrpc.Call) (
 		// them back through rpcToRes.
 		found := make([]hrpc.RPCResult, len(batch))
 		rpcByClient, ok := c.findClients(ctx, batch, found)
-		if !ok {
-			for i, rpc := range batch {
-				if found[i].Error != nil {
-					res[rpcToRes[rpc]] = found[i]
-				}
+		for i, rpc := range batch {
+			if found[i].Error != nil {
+				res[rpcToRes[rpc]] = found[i]
+				// (if only the call's own context is done, the rest of
+				// the batch goes on without it)
+				allOK = false
+				unretryableErrorSeen = true
 			}
+		}
+		if !ok {
 			return res, false
 		}
 		sendBatchSplitCount.Observe(float64(len(rpcByClient)))
@@ -374,8 +378,23 @@ func (c *client) findClients(ctx context.Context, batch []hrpc.Call, res []hrpc.
 	rpcByClient := make(map[hrpc.RegionClient][]hrpc.Call)
 	ok := true
 	for i, rpc := range batch {
-		rc, err := c.getRegionAndClientForRPC(ctx, rpc)
+		rctx, release := ctx, func() {}
+		if rpc.Context() != ctx && rpc.Context().Done() != nil {
+			// the call has a context of its own: stop waiting for its
+			// region when that one is done, too
+			var cancel context.CancelFunc
+			rctx, cancel = context.WithCancel(ctx)
+			stop := context.AfterFunc(rpc.Context(), cancel)
+			release = func() { stop(); cancel() }
+		}
+		rc, err := c.getRegionAndClientForRPC(rctx, rpc)
+		release()
 		if err != nil {
+			if ctx.Err() == nil && rpc.Context().Err() != nil {
+				// only this call has given up
+				res[i].Error = rpc.Context().Err()
+				continue
+			}
 			res[i].Error = err
 			ok = false
 			continue // see if any more RPCs are missing regions
